@@ -7,6 +7,7 @@ package otter
 
 import (
 	"bufio"
+	"context"
 	"encoding/json"
 	"os"
 	"sync"
@@ -491,6 +492,96 @@ func runMassExpiry(sc sweepScenario) sweepResult {
 	return res
 }
 
+// runStaleEvictLoad (C08): the policies evict a node that is no longer the key's current node (replaced or invalidated, its event
+// still buffered when the maintenance replays it: the node is heavier than the maximum) while a load of the key is in flight.
+// Nothing is removed from the table by that eviction, so the load is not disturbed: a second Get joins it.
+func runStaleEvictLoad(sc sweepScenario) sweepResult {
+	res := sweepResult{T: "sweep", Sc: sc, TickNs: 1 << 30}
+	var pmu sync.Mutex
+	var pending []func()
+	runAll := func() {
+		for {
+			pmu.Lock()
+			if len(pending) == 0 {
+				pmu.Unlock()
+				return
+			}
+			fn := pending[0]
+			pending = pending[1:]
+			pmu.Unlock()
+			fn()
+		}
+	}
+	c := Must(&Options[int, int]{
+		MaximumWeight: 10,
+		Weigher:       func(k, v int) uint32 { return uint32(v) },
+		Executor: func(fn func()) { // maintenance runs when the scenario says so
+			pmu.Lock()
+			pending = append(pending, fn)
+			pmu.Unlock()
+		},
+	})
+	defer c.StopAllGoroutines()
+	c.Set(1, 1)
+	c.Set(2, 1)
+	runAll()
+	c.CleanUp()
+	c.Set(1, 100) // heavier than the maximum: the policies will evict this node as soon as they hear of it
+	switch sc.Op {
+	case "ld.staleevict.set":
+		c.Set(1, 2) // replaced before the policies heard of it
+		c.Invalidate(1)
+	default:
+		c.Invalidate(1)
+	}
+	var runs atomic.Int64
+	entered1, release1 := make(chan struct{}), make(chan struct{})
+	entered2 := make(chan struct{})
+	done1, done2 := make(chan struct{}), make(chan struct{})
+	go func() {
+		defer close(done1)
+		_, _ = c.Get(context.Background(), 1, LoaderFunc[int, int](func(ctx context.Context, key int) (int, error) {
+			runs.Add(1)
+			close(entered1)
+			<-release1
+			return 7, nil
+		}))
+	}()
+	select {
+	case <-entered1:
+	case <-time.After(3 * time.Second):
+		res.Hang = 1
+		return res
+	}
+	c.CleanUp() // replays the buffered events: the stale heavy node is evicted
+	runAll()
+	go func() {
+		defer close(done2)
+		_, _ = c.Get(context.Background(), 1, LoaderFunc[int, int](func(ctx context.Context, key int) (int, error) {
+			runs.Add(1)
+			close(entered2)
+			return 8, nil
+		}))
+	}()
+	select {
+	case <-entered2: // the cache called the second loader while the first is still running
+		res.Overlap = 1
+	case <-time.After(250 * time.Millisecond):
+	}
+	close(release1)
+	for _, ch := range []chan struct{}{done1, done2} {
+		select {
+		case <-ch:
+		case <-time.After(3 * time.Second):
+			res.Hang = 1
+			return res
+		}
+	}
+	runAll()
+	res.LdRuns = int(runs.Load())
+	return res
+}
+
 type sweepResult struct {
 	T       string        `json:"t"`
 	Sc      sweepScenario `json:"sc"`
@@ -508,6 +599,8 @@ type sweepResult struct {
 	NoPressure int `json:"nopressure"` // 1 = the cache was never above its maximum (or has none) during the scenario
 	MidPresent int `json:"midpresent"` // 1 = the entry was present (GetEntryQuietly) right after the race
 	MidAlive   int `json:"midalive"`   // 1 = its deadline (as reported then) lay after the clock value of the race
+	Overlap     int `json:"overlap"`     // ld.x: 1 = a second loader for the key was entered while the first was still running
+	LdRuns      int `json:"ldruns"`      // ld.x: loader invocations
 	MassN       int `json:"massn"`       // mass.x: entries that came due in one sweep
 	MassExpired int `json:"massexpired"` // mass.x: distinct keys for which exactly one Expiration event was delivered
 	Cold       int `json:"cold"`       // sia.race: entries Coldest yields after the race (Live = entries All yields)
@@ -614,6 +707,10 @@ func TestVerifSweep(t *testing.T) {
 	defer w.Flush()
 	enc := json.NewEncoder(w)
 	for _, sc := range scs {
+		if len(sc.Op) > 3 && sc.Op[:3] == "ld." {
+			_ = enc.Encode(runStaleEvictLoad(sc))
+			continue
+		}
 		if len(sc.Op) > 5 && sc.Op[:5] == "mass." {
 			_ = enc.Encode(runMassExpiry(sc))
 			continue
